@@ -260,6 +260,8 @@ def fits(d, text):
         rs = [fits(x, a) for x, a in zip(d[1], args)]
         return False if any(r is False for r in rs) else (None if any(r is None for r in rs) else True)
     if d[0] == 'obj':
+        if name == 'Callable':
+            return True if ('function' in d[1] or 'method' in d[1] or 'builtin_function_or_method' in d[1]) else False
         return name.split('.')[-1] in d[1] and name not in ('int', 'float', 'bool', 'str', 'list', 'dict', 'tuple')
     return None
 
